@@ -28,3 +28,13 @@ def twinMapTr : Twin K V := { (twinMap : Twin K V) with trace := true }
 def twinMapOfTr : Twin K V := { (twinMapOf : Twin K V) with trace := true }
 
 end Deep
+
+namespace Deep
+variable {K V : Type} [DecidableEq K] [Inhabited V]
+
+/-- the two instances with the underlying map's `Range` handing the visitor the pairs `π` (whatever the content is):
+the traversal of a map that other goroutines are writing to -/
+def twinMapHanded (π : List (K × Model.Item V)) : Twin K V := { (twinMap : Twin K V) with handed := fun _ => π }
+def twinMapOfHanded (π : List (K × Model.Item V)) : Twin K V := { (twinMapOf : Twin K V) with handed := fun _ => π }
+
+end Deep
